@@ -26,6 +26,8 @@ func main() {
 		runCors(*in, *out, *seed)
 	case "pure":
 		runPure(*in, *out, *seed)
+	case "registry":
+		runRegistry(*in, *out, *seed)
 	case "nego":
 		runNego(*in, *out, *seed)
 	default:
